@@ -173,6 +173,7 @@ def run(ctx):
         "covered by the differential runs and by C02/C13/C20, not by the C14 theorems",
         "Node.Index addresses the i-th member of an object (documented API); the searcher treats an index on an object as a syntax error",
         "float conversion of Interface()/Float64() is compared with encoding/json/strconv in the runs only (C19)",
+        "documents nest less than 4096 levels (the traverser's ERR_RECURSE_EXCEED_MAX path added by fix 62dcdd9 is C07's subject)",
     ]
     p_ok = c.standard_P(ctx, CLAIM["gens"], SUPPORT)
     problems = []
@@ -235,12 +236,14 @@ def run(ctx):
     dist = collections.Counter()
     distinct = set()
     known_hit = collections.Counter()
+    known_example = {}
     viols = []
     for line in lines:
         f = line.split("\t")
         v, known = verdict(impl.get(f[0]), model.get(f[0]))
         for kf in set(known):
             known_hit[kf] += 1
+            known_example.setdefault(kf, (line, impl.get(f[0])))
         im = impl.get(f[0], ["", "?", "", "", ""])
         dist["result:" + im[1].split(":")[0]] += 1
         dist["pathlen:%d" % (0 if f[2] == "." else f[2].count("/") + 1)] += 1
@@ -265,7 +268,9 @@ def run(ctx):
         if k in known_listed:
             ctx.known(k, known_listed[k]["signature"])
         else:
-            ctx.violation("defect classified as %s but not listed" % k, {"id": k}, True)
+            ex_line, ex_impl = known_example.get(k, ("", None))
+            ctx.violation("defect %s reappeared: it is not (or no longer) listed as known - %s" % (k, (ex_impl or ["", "", "", "", ""])[4][:300]),
+                          {"id": k, "case_line": ex_line, "path": ex_line.split("\t")[2] if ex_line else None, "impl": ex_impl}, True)
     viols.sort(key=lambda fv: {"oracle": 0, "model": 1, "spec": 2}[fv[1][0]])
     for f, v in viols[:3]:
         kind, detail = v
